@@ -2,7 +2,8 @@
 
 use std::collections::BTreeMap;
 
-use crate::driver::{Ctx, Report};
+use crate::driver::{Case, Ctx, Found, Report};
+use serde_json::json;
 use crate::gen::*;
 use crate::layout::fields;
 use crate::rng::Gen;
@@ -251,6 +252,96 @@ pub fn run(ctx: &Ctx) -> Report {
         gen_world(seed, k, suites[si], k as usize, thorough)
     };
     super::world_batch(ctx, &mut rep, jobs.len(), &gen, OWN, true, Some(&judge));
+    // (3) a key-stretching type WITHOUT fields (unit struct, hard-wired parameters), on the
+    // fixed suite ristretto255/ristretto255: same flow, same tapes, under `SimKsfUnit` and under
+    // `SimKsf { tag: SIMKSF_UNIT_TAG }`, which compute the same function
+    for k in 0..ctx.pick(16, 400) as u64 {
+        let mut g = Gen::new(seed, &format!("gen/c15/unitksf/{k}"));
+        let pseed = g.below(1 << 30) as u64;
+        let pw = small_pw(&mut g);
+        let explicit = g.chance(1, 2);
+        let fault = g.below(4); // 0,1 none; 2 registration; 3 login
+        rep.evaluations += 2;
+        *rep.stats.probes.entry("fieldless_ksf_flow".into()).or_insert(0) += 1;
+        if fault >= 2 {
+            *rep.stats.faults.entry("ksf_fail_fieldless").or_insert(0) += 1;
+        }
+        for (clause, detail) in unitksf_verdicts(pseed, &pw, explicit, fault) {
+            rep.add_found(Found {
+                clause: clause.into(),
+                detail: format!("field-less Ksf type (ristretto255/ristretto255): {detail}"),
+                signature: format!("{clause}:unitksf"),
+                case: Case::Custom { mode: "unitksf".into(), params: json!({"seed": pseed, "pw": hex::encode(&pw), "explicit": explicit, "fault": fault}) },
+            });
+        }
+    }
     rep.assumptions.push("equality of the stretched value with the RFC's OPRF output is decided in C09/C14 (Model B); here it is checked for length and for equality between registration and login".into());
     rep
+}
+
+/// the oracle of probe (3); also used by replay
+pub fn unitksf_verdicts(pseed: u64, pw: &[u8], explicit: bool, fault: usize) -> Vec<(&'static str, String)> {
+    use sim_core::unitksf::{flow_tag, flow_unit};
+    use sim_core::seams::SIMKSF_UNIT_TAG;
+    let (fr, fl) = (if fault == 2 { Some(1) } else { None }, if fault == 3 { Some(1) } else { None });
+    let u = match std::panic::catch_unwind(|| flow_unit(pseed, pw, explicit, fr, fl)) {
+        Ok(u) => u,
+        Err(_) => return vec![("panic", "panic in a flow with a field-less Ksf".into())],
+    };
+    let t = match std::panic::catch_unwind(|| flow_tag(pseed, pw, true, fr, fl)) {
+        Ok(t) => t,
+        Err(_) => return vec![("panic", "panic in the reference flow".into())],
+    };
+    let mut v = vec![];
+    // exactly one call per client finish step that was reached, on the right instance
+    let reached_login = u.reg.is_ok();
+    for (name, calls, reached) in [("registration finish", &u.reg_calls, true), ("login finish", &u.login_calls, reached_login)] {
+        if reached && calls.len() != 1 {
+            v.push(("ksf_call_count", format!("{name} made {} key-stretching calls instead of 1", calls.len())));
+        }
+        if calls.iter().any(|c| c.0 != SIMKSF_UNIT_TAG) {
+            v.push(("ksf_wrong_instance", format!("{name} called another instance")));
+        }
+    }
+    if let (Some(a), Some(b)) = (u.reg_calls.first(), u.login_calls.first()) {
+        if a.1 != b.1 {
+            v.push(("ksf_input_mismatch", "registration and login stretched different inputs for the same password and record".into()));
+        }
+    }
+    // injected failure: returned as an error of that step, never swallowed
+    if fault == 2 {
+        match &u.reg {
+            Ok(_) => v.push(("seam_error_swallowed", "the key-stretching call of registration finish failed, yet the step returned Ok".into())),
+            Err(e) if !e.contains("Ksf") => v.push(("seam_error_wrong_kind", format!("failing key-stretching call reported as {e}"))),
+            _ => {}
+        }
+    }
+    if fault == 3 {
+        match &u.login {
+            Ok(_) => v.push(("seam_error_swallowed", "the key-stretching call of login finish failed, yet the step returned Ok".into())),
+            Err(e) if !e.contains("Ksf") => v.push(("seam_error_wrong_kind", format!("failing key-stretching call reported as {e}"))),
+            _ => {}
+        }
+    }
+    // the same function through a type with a field: everything observable is identical
+    if fault < 2 {
+        if u.reg.is_err() || u.login.is_err() || u.server_key.is_none() {
+            v.push(("step_failed", format!("honest flow did not complete: reg={:?} login={:?}", u.reg.as_ref().err(), u.login.as_ref().err())));
+        }
+        if let (Ok(l), Some(sk)) = (&u.login, &u.server_key) {
+            if &l.1 != sk {
+                v.push(("step_failed", "client and server session keys differ".into()));
+            }
+        }
+    }
+    if u.reg != t.reg || u.login != t.login || u.server_key != t.server_key {
+        v.push(("ksf_not_bound", "outputs under the field-less type differ from those under SimKsf computing the same function on the same tapes (upload, export key, finalization or session key)".into()));
+    }
+    v
+}
+
+pub fn replay_unitksf(params: &serde_json::Value) -> Option<String> {
+    let pw = hex::decode(params["pw"].as_str()?).ok()?;
+    let v = unitksf_verdicts(params["seed"].as_u64()?, &pw, params["explicit"].as_bool()?, params["fault"].as_u64()? as usize);
+    v.into_iter().next().map(|x| format!("{}: {}", x.0, x.1))
 }
